@@ -10,6 +10,30 @@ namespace gsref
 {
     typedef std::vector<uint8_t> Bytes;
 
+    // The two wire alphabets, pinned.  Values copied from the documented constants of the unchanged tree
+    // (gstuff.h: GSTUFF_*_V1 = A8 B2 C5 / 8A 2B 5C, GSTUFF_*_V0 = AC AD / AE AF; gstuff_v1/gstuff.h: AC AD / AE AF).
+    // All reference traffic, reference decoding and monitoring use THESE, never what the library's context objects
+    // happen to contain; the alphabet_constants sub-checks compare the library's objects against them.
+    inline gs::Markers golden(int codec)
+    {
+        if (codec == gs::CFG_V1)
+            return gs::Markers{0xA8, 0xB2, 0xC5, 0x8A, 0x2B, 0x5C};
+        return gs::Markers{0xAC, 0xAC, 0xAD, 0xAE, 0xAE, 0xAF}; // CFG_V0 and LEGACY: START == STOP
+    }
+    // compare what the library exposes (gstuff_context{}, gstuff_context_v0(), the legacy macros) with the pinned values;
+    // returns "" or a description of the first difference
+    inline std::string alphabet_difference(int codec)
+    {
+        gs::Markers L = gs::markers(codec), G = golden(codec);
+        const char *nm[6] = {"START", "STOP", "STUB", "STUB_START", "STUB_STOP", "STUB_STUB"};
+        uint8_t l[6] = {L.start, L.stop, L.stub, L.c_start, L.c_stop, L.c_stub}, g[6] = {G.start, G.stop, G.stub, G.c_start, G.c_stop, G.c_stub};
+        static const char *x = "0123456789ABCDEF";
+        for (int i = 0; i < 6; i++)
+            if (l[i] != g[i])
+                return std::string(nm[i]) + " is " + x[l[i] >> 4] + x[l[i] & 15] + ", the protocol constant is " + x[g[i] >> 4] + x[g[i] & 15];
+        return "";
+    }
+
     inline uint8_t crc8_bit(uint8_t reg, int bit)
     {
         int top = (reg >> 7) & 1;
